@@ -16,7 +16,7 @@ three resource dimensions per type.  A resource list is 3 tokens, `_` = key abse
   addq / refq / updq / delq: as add / ref / upd / del without output (exhaustive stream: one dump per history)
 After ref/add/rem/upd/del: the ledger, value-based (missing = 0), only devices with a non-zero entry:
   d <type> <minor> <total>*3 <free>*3 <used>*3        p <type> <pod> <k> (<minor> v v v)*
-then  x <wf> <exact>   the history predicates so far (histWFB / histExact of Model/C07Hist.lean, all types)
+then  x <wf> <exact> <sched>   the history predicates so far (histWFB / histExact / histSched of Model/C07Hist.lean, all types)
 alloc/auto print the filtered view (`v <minor> …` lines) when a view is used, then
   alloc fail | alloc ok <k> m*   (mode 0: in selection order; mode 1: sorted, or `alloc inconsistent <code>`),
   after `alloc ok` with k > 0:  cov <0|1>  = chosenCovered (every chosen device exposes every requested key).
@@ -118,13 +118,15 @@ structure DState where
   node  : Node
   wf    : Bool
   exact : Bool
+  sched : Bool
 
 /-- apply ledger ops to one device type, evaluating `opWFB` / `opExact` on the way -/
 def applyOps (d : DState) (t : Nat) (ops : List Op) : DState :=
   if t ≥ ntypes then d else
   ops.foldl (fun d op =>
     let s := nodeGet d.node t
-    { node := nodeSet d.node t (step s op), wf := d.wf && opWFB op, exact := d.exact && opExact s op }) d
+    { node := nodeSet d.node t (step s op), wf := d.wf && opWFB op, exact := d.exact && opExact s op,
+      sched := d.sched && schedOK s op }) d
 
 def applyAllocs (d : DState) (p : Nat) (add : Bool) (groups : List (Nat × List (Nat × RL))) : DState :=
   groups.foldl (fun d g => applyOps d g.1 [if add then Op.add p g.2 else Op.remove p g.2]) d
@@ -132,7 +134,8 @@ def applyAllocs (d : DState) (p : Nat) (add : Bool) (groups : List (Nat × List 
 def groupGet (groups : List (Nat × List (Nat × RL))) (t : Nat) : Option (List (Nat × RL)) :=
   (groups.find? (fun g => g.1 == t)).map (·.2)
 
-def flagLine (d : DState) : String := s!"x {if d.wf then 1 else 0} {if d.exact then 1 else 0}"
+def flagLine (d : DState) : String :=
+  s!"x {if d.wf then 1 else 0} {if d.exact then 1 else 0} {if d.sched then 1 else 0}"
 
 def covLine (w : TState) (a : AllocReq) : Option (List Nat) → List String
   | some (m :: ms) => [s!"cov {if chosenCovered w a (m :: ms) then 1 else 0}"]
@@ -236,7 +239,7 @@ def runLines : DState → List String → List String
     out ++ runLines d' ls
 
 def runCase (lines : List String) : List String :=
-  runLines { node := List.replicate ntypes TState.empty, wf := true, exact := true } lines
+  runLines { node := List.replicate ntypes TState.empty, wf := true, exact := true, sched := true } lines
 
 end KoordVerif.C07
 
